@@ -127,6 +127,10 @@ def _ite(c, a, b):
         if isinstance(a, SB) or isinstance(b, SB) or isinstance(a, (bool, np.bool_)) and isinstance(b, (bool, np.bool_)):
             import z3
             return SB(z3.If(c.e, SB._l(a), SB._l(b)))
+        ints = (int, np.integer, SI)
+        if isinstance(a, ints) and isinstance(b, ints) and not isinstance(a, (bool, np.bool_)) and not isinstance(b, (bool, np.bool_)):
+            import z3
+            return SI(z3.If(c.e, SI._o(a), SI._o(b)))
         return sc.ite(c, a, b)
     return a if c else b
 
@@ -746,29 +750,48 @@ class Interp:
         return out
 
     def p_while(self, ins, params, eqn):
+        """Bounded unrolling without symbolic loop counters: the body is applied to the *unmerged* states s_0, s_1, ...
+        (s_{k+1} = body(s_k)), c_k = cond(s_k), and the result is ite(c_0, ite(c_1, ..., s_1), s_0).  Definedness side
+        conditions and definitional constraints created while computing s_{k+1} are guarded by c_0 & ... & c_k (JAX would
+        compute inf/nan there and the loop has already stopped).  If c_K is still satisfiable after `while_bound`
+        iterations an unwinding obligation fails (bound too small), never a silent truncation."""
+        import z3
         cj, bj = params["cond_jaxpr"], params["body_jaxpr"]
         nc, nb = params["cond_nconsts"], params["body_nconsts"]
         cconst, bconst, state = ins[:nc], ins[nc:nc + nb], list(ins[nc + nb:])
-        for it in range(10 ** 6):
-            c = self.eval_jaxpr(cj.jaxpr, cj.consts, *cconst, *state)[0]
-            if not is_sym(c):
-                if not bool(np.asarray(c)):
-                    return state
-                state = self.eval_jaxpr(bj.jaxpr, bj.consts, *bconst, *state)
-                continue
-            # symbolic condition: bounded unrolling with state merging
-            cond = _b(c.reshape(-1)[0])
-            for k in range(self.while_bound):
-                new = self.eval_jaxpr(bj.jaxpr, bj.consts, *bconst, *state)
-                state = [self._merge(cond, n, s) for n, s in zip(new, state)]
-                c2 = self.eval_jaxpr(cj.jaxpr, cj.consts, *cconst, *state)[0]
-                c2 = _b(np.asarray(c2, dtype=object).reshape(-1)[0])
-                cond = (cond & c2) if isinstance(cond, SB) else (c2 if cond else False)
-                if not isinstance(cond, SB) and not cond:
-                    return state
-            self.unwinding.append(cond)      # must be unsatisfiable: the loop has terminated within the bound
-            return state
-        raise NotEncodable("while loop did not terminate")
+        states, conds = [state], []
+        ctx = sc.Ctx.cur
+        guard = None
+        for k in range(10 ** 6):
+            c = self.eval_jaxpr(cj.jaxpr, cj.consts, *cconst, *states[-1])[0]
+            if is_sym(c):
+                cb = _b(c.reshape(-1)[0])
+                if isinstance(cb, SB):
+                    ce = z3.simplify(cb.e)
+                    cb = True if z3.is_true(ce) else (False if z3.is_false(ce) else cb)
+            else:
+                cb = bool(np.asarray(c))
+            if cb is False:
+                break
+            symbolic_so_far = any(isinstance(x, SB) for x in conds) or isinstance(cb, SB)
+            if symbolic_so_far and len([x for x in conds if isinstance(x, SB)]) + (1 if isinstance(cb, SB) else 0) > self.while_bound:
+                g = guard if guard is not None else z3.BoolVal(True)
+                self.unwinding.append(SB(z3.And(g, cb.e if isinstance(cb, SB) else z3.BoolVal(True))))
+                break
+            conds.append(cb)
+            if isinstance(cb, SB):
+                guard = cb.e if guard is None else z3.And(guard, cb.e)
+            npc, nside = (len(ctx.pc), len(ctx.side)) if ctx is not None else (0, 0)
+            new = self.eval_jaxpr(bj.jaxpr, bj.consts, *bconst, *states[-1])
+            if ctx is not None and guard is not None:
+                ctx.pc[npc:] = [z3.Implies(guard, t) for t in ctx.pc[npc:]]
+                ctx.side[nside:] = [z3.Implies(guard, t) for t in ctx.side[nside:]]
+            states.append(new)
+        result = states[-1]
+        for k in range(len(conds) - 1, -1, -1):
+            if isinstance(conds[k], SB):
+                result = [self._merge(conds[k], a, b) for a, b in zip(result, states[k])]
+        return result
 
     def p_scan(self, ins, params, eqn):
         closed = params["jaxpr"]
